@@ -102,7 +102,7 @@ for i in range(1, 21):
 
 def main():
     commits = subprocess.run(["git", "-C", "/repo", "log", "--format=%H %s"], capture_output=True, text=True).stdout.splitlines()
-    hook_commits = [c.split()[0] for c in commits if " verif-hook:" in c]
+    hook_commits = [c.split()[0] for c in commits if " verif-hook:" in c or " verif: " in c]
     checks = []
     for pid, (text, ref) in sorted(CLAIMED.items()):
         checks.append(dict(
@@ -120,7 +120,7 @@ def main():
     m = dict(
         version=1,
         setup_cmd="bin/setup",
-        hooks=dict(guard="verif", enable="go build -tags verif (harness/cmd/* built against /repo through a replace directive)",
+        hooks=dict(guard="verif", enable="go build / go test -tags verif (harness/cmd/* built against /repo through a replace directive; the suite-trace stage runs the library's tests in a scratch copy with ecs.TraceSink installed)",
                    baseline_off_cmd="cd /repo && GOFLAGS=-mod=mod GOPROXY=off go test -vet=off -count=1 ./...",
                    source_commits=hook_commits, add_only=True),
         engines=[dict(name="arkcheck", path="lib/arkcheck.py", serves_properties=sorted(CLAIMED),
